@@ -1010,7 +1010,7 @@ impl Engine for C04 {
         }
     }
     fn rule(&self) -> String {
-        "texts: (1) every sequence of <= L tokens over the full alphabet (one spelling per TokenKind, 54 symbols, joined by one blank) and of L+1..=L' tokens over the reduced grammar alphabet (18 symbols, a subset of the 54: let res a = ; ( ) { } 'p num , | -> get < > /; 25 symbols in one thorough bound); (2) every string of <= n characters over the character alphabet; (3) the corpus (examples/*.oal and 48 small valid programs covering every production) verbatim, re-rendered, and with every 1 (thorough: also 2, on the programs of <= 12 tokens) token-level deviation (delete, duplicate, swap neighbours, replace by each of the 54 tokens) at every site; (4) 42 parametric nesting (closed, unclosed and mismatched brackets) / chain / digit families. Each text goes through oal_syntax::parse and oal_wasm::compile in a worker process (panic caught; abort, stack overflow, memory exhaustion, hang attributed to the text). Every full-alphabet sequence of <= 2 (thorough 3) tokens, the corpus, the nesting families and the first text of every distinct in-process outcome class also go through the real oal-cli in a fresh directory (exit status 0 or 1, status 0 iff out.yaml written) and through the real oal-lsp (full-text change of main.oal, then one request that must be answered). distinct = distinct in-process outcome classes (parse verdict and error kinds, wasm verdict / first line of its error without positions)".into()
+        "texts: (1) every sequence of <= L tokens over the full alphabet (one spelling per TokenKind, 54 symbols, joined by one blank) and of L+1..=L' tokens over the reduced grammar alphabet (18 symbols, a subset of the 54: let res a = ; ( ) { } 'p num , | -> get < > /; 25 symbols in one thorough bound); (2) every string of <= n characters over the character alphabet; (3) the corpus (examples/*.oal and 50 small valid programs covering every production) verbatim, re-rendered, and with every 1 (thorough: also 2, on the programs of <= 12 tokens) token-level deviation (delete, duplicate, swap neighbours, replace by each of the 54 tokens) at every site; (4) 42 parametric nesting (closed, unclosed and mismatched brackets) / chain / digit families. Each text goes through oal_syntax::parse and oal_wasm::compile in a worker process (panic caught; abort, stack overflow, memory exhaustion, hang attributed to the text). Every full-alphabet sequence of <= 2 (thorough 3) tokens, the corpus, the nesting families and the first text of every distinct in-process outcome class also go through the real oal-cli in a fresh directory (exit status 0 or 1, status 0 iff out.yaml written) and through the real oal-lsp (full-text change of main.oal, then one request that must be answered). distinct = distinct in-process outcome classes (parse verdict and error kinds, wasm verdict / first line of its error without positions)".into()
     }
     fn assumptions(&self) -> Vec<String> {
         vec![
